@@ -582,6 +582,9 @@ def m_list_remove(eng, s, l, args, kw):
     eng.check_write(ok, l.ref, "list")
     arr = fresh("rm", smt.ArrIV)
     ok.assume(z3.ForAll([i], z3.Select(arr, i) == z3.If(i < idx, z3.Select(old, i), z3.Select(old, i + 1)), patterns=[z3.Select(arr, i)]))
+    # the same fact read from the old positions (gives "x is still in the list" its witness)
+    ok.assume(z3.ForAll([i], z3.And(z3.Implies(i < idx, z3.Select(arr, i) == z3.Select(old, i)),
+                                    z3.Implies(i > idx, z3.Select(arr, i - 1) == z3.Select(old, i))), patterns=[z3.Select(old, i)]))
     ok.heap = ok.heap.set_list(l.ref, n - 1, arr)
     return [(sv_none(), ok)]
 
